@@ -190,7 +190,9 @@ def run(tier):
             _mc(rep, mcres, cfg, am, fm, wd, 240 if quick else 1500)
     nchunk = 48
     per = (ng2 + nchunk - 1) // nchunk
-    g2tasks = [('g2', (per, 500000 + k * 1000, sd, wd, D.VECTORS)) for k in range(nchunk)]
+    # every statement of the catalogue (operands that only look like numbers, mixed DEF* items, ...) is dealt out to one of the files
+    g2tasks = [('g2', (per, 500000 + k * 1000, sd, wd, D.VECTORS, [D.deal(k * per + i, per * nchunk) for i in range(per)]))
+               for k in range(nchunk)]
     pool = mp.get_context('fork').Pool(16)            # forked before the model-checking thread exists
     try:
         g2async = pool.map_async(_task, g2tasks, chunksize=1)
@@ -310,6 +312,18 @@ def run(tier):
                if not feat[f]]
     if missing:
         raise MachineryError('vacuous: flag combinations never generated: %s' % missing)
+    # every catalogue statement stands in a g2 file whose ASM was compared under every option vector
+    catseen = {}
+    for i, c in enumerate(allc):
+        if c['gen'] == 'g2' and stats[i][0] and c['hasasm']:
+            for ln in c['prog']:
+                if ln['l'] == 'ins' and ln['tok'].get('cat'):
+                    catseen.setdefault(ln['tok']['cat'], set()).update(v[0] for v in c['vecs'])
+    allv = {D.vec_code(v) for v in D.VECTORS}
+    lackc = [t for t in D.CATALOGUE if catseen.get(t, set()) != allv]
+    rep.extra['catalogue'] = {'statements': len(D.CATALOGUE), 'compared under all option vectors': len(D.CATALOGUE) - len(lackc)}
+    if lackc:
+        raise MachineryError('vacuous: catalogue statements not compared under all 18 option vectors: %s' % lackc[:20])
     for g in ('sim', 'g2'):
         lack = [D.vec_code(v) for v in D.VECTORS if not vecs_seen[(g, D.vec_code(v))]]
         if lack:
